@@ -124,7 +124,9 @@ PARSE_STRS = [S("1.5"), S(" 12 "), S("1_0"), S("NaN"), S("sNaN"), S("Infinity"),
               S("0001-01-01T00:00:00+01:00"), S("9999-12-31T23:59:59-01:00"), S("0001-01-01T00:00:00-23:59"),
               S("12345678-1234-5678-1234-567812345678\n"), S("12345678123456781234567812345678\n"), S("2020-01-02\n"),
               S("2020-01-02T03:04:05\n"), S("1.5\n"), S("12345678-1234-5678-1234-567812345678 "), S("\n2020-01-02"),
-              S("2020-01-02T24:00:00"), S("2020-01-02T03:04:60"), S("2020-01-02T03:04:05+24:00")]
+              S("2020-01-02T24:00:00"), S("2020-01-02T03:04:60"), S("2020-01-02T03:04:05+24:00"),
+              # date-only values written as midnight timestamps
+              S("2020-01-02T00:00:00"), S("2020-01-02T00:00"), S("2020-01-02 00:00:00"), S("20200102T000000")]
 BYTESS = [B(b""), B(b"a"), B(b" a "), B(b"ab"), B(b"\xff"), B(b"aB"), B(b"\x0b")]
 DECS = [D(False, 0, 0), D1, D10, D15, DN0, D(False, 2, 0), D(True, 1, 0), D(False, 3, 0)]
 DECS_HOSTILE = [DNAN, DSNAN, DINF, DBIG, ("VDecimal", ("DInf", True))]
